@@ -19,6 +19,7 @@ import (
 	"io"
 	"os"
 	"os/exec"
+	"runtime"
 	"runtime/debug"
 	"strings"
 	"sync"
@@ -26,18 +27,28 @@ import (
 	"time"
 )
 
+// batch: jobs about one object. Ref (the reference encoding the decode jobs cut and patch) travels with the
+// batch so that a freshly (re)started helper does not have to rebuild the object: for "decode" jobs it only
+// needs the type's zero value.
+type batch struct {
+	Seed     uint64
+	Entry    string
+	Vi       int
+	Ref      []byte
+	Tripwire bool // UnmarshalBinary and ReadFrom speak the same format: probe through the watchReader first
+	Jobs     []job
+}
+
 type job struct {
-	Seed  uint64
-	Entry string
-	Vi    int
-	Op    string // "decode": Decoder on the reference bytes cut to Cut (if >=0) with Patch applied at Off; "frag": ReadFrom through Buf/Chunk
+	Op string // "decode": Decoder on the reference bytes cut to Cut (if >=0) with Patch applied at Off; "frag": ReadFrom through Buf/Chunk
 	// decode
 	Decoder string
 	Cut     int    // -1: whole encoding
 	Off     int    // patch offset
 	Patch   []byte // bytes written at Off (nil: none)
 	Check   bool   // when the decode succeeds, check that the result is a valid object (marshals, stable)
-	// frag
+	// frag / comps: Path selects a component of the object (indices into successive components() lists)
+	Path             []int
 	Buf              int
 	ChName           string
 	ChSize, ChZeroAt int
@@ -48,11 +59,12 @@ func (j job) chunk() chunking {
 	return chunking{name: j.ChName, size: j.ChSize, halves: j.ChHalves, eofWithData: j.ChEOF, zeroAt: j.ChZeroAt}
 }
 
-func fragJob(x *lc, bs int, ch chunking) job {
-	return job{Seed: x.seed, Entry: x.e.name, Vi: x.vi, Op: "frag", Buf: bs, ChName: ch.name, ChSize: ch.size, ChZeroAt: ch.zeroAt, ChHalves: ch.halves, ChEOF: ch.eofWithData}
+func fragJob(path []int, bs int, ch chunking) job {
+	return job{Op: "frag", Path: path, Buf: bs, ChName: ch.name, ChSize: ch.size, ChZeroAt: ch.zeroAt, ChHalves: ch.halves, ChEOF: ch.eofWithData}
 }
 
 type result struct {
+	NotRun    bool   // not executed / not looked at: beyond the cut-off of runJobs
 	Fatal     string // helper process died: "stack-overflow" | "out-of-memory" | "hang" | "other"
 	FatalSite string // innermost library frame of the fatal traceback
 	Err       string // "" = nil error
@@ -61,15 +73,20 @@ type result struct {
 	Site      string
 	Tripped   bool // the no-progress tripwire fired (would be a stack overflow with a real buffer.Buffer)
 	AllocPan  bool
-	Alloc     uint64
+	Alloc     uint64 // bytes allocated (for an out-of-memory death: the size of the refused request)
+	AllocSite string // function that made the largest allocation, when Alloc is above the limit
 	N         int64
 	// verdict of judge() for "frag"
 	VKind, VMsg string
 	// validity of an accepted corrupted object
 	Invalid, InvalidMsg string // "" = valid (or not checked)
+	// "comps": signature subjects of the components
+	Names []string
 }
 
-func (r result) ok() bool { return r.Fatal == "" && r.Err == "" && r.Panic == "" }
+func (r result) ok() bool { return !r.NotRun && r.Fatal == "" && r.Err == "" && r.Panic == "" }
+
+const maxEvents = 3 // see runJobs
 
 func fillOutcome(r *result, o outcome) {
 	if o.err != nil {
@@ -110,31 +127,46 @@ func decoderByName(name string) decoder {
 }
 
 // execJob runs one job in this process.
-func execJob(j job) (r result) {
-	e := entryByName(j.Entry)
-	o := original(j.Seed, e, j.Vi)
-	x := &lc{e: e, vi: j.Vi, o: o, seed: j.Seed}
+func execJob(b *batch, j job) (r result) {
+	e := entryByName(b.Entry)
 	switch j.Op {
 	case "frag":
-		v, out := x.fragRun(j.Buf, j.chunk())
+		o := original(b.Seed, e, b.Vi)
+		obj, wbin, ee := o.obj, o.wbin, e
+		if len(j.Path) > 0 {
+			obj, ee = resolvePath(o.obj, j.Path), nil
+			var buf bytes.Buffer
+			if out := guard(func() (err error) { _, err = obj.(io.WriterTo).WriteTo(&buf); return }); out.err != nil || out.panicked != nil {
+				fillOutcome(&r, out)
+				return
+			}
+			wbin = buf.Bytes()
+		}
+		v, out := fragRunObj(ee, obj, wbin, j.Buf, j.chunk())
 		fillOutcome(&r, out)
 		r.VKind, r.VMsg = v.kind, v.msg
+	case "comps":
+		for _, c := range components(resolvePath(original(b.Seed, e, b.Vi).obj, j.Path)) {
+			r.Names = append(r.Names, declName(c.ptr, "ReadFrom"))
+		}
 	case "decode":
 		d := decoderByName(j.Decoder)
-		ref, _ := o.ref(d)
-		data := append([]byte(nil), ref...)
+		data := append([]byte(nil), b.Ref...)
 		if j.Patch != nil {
 			copy(data[j.Off:], j.Patch)
 		}
 		if j.Cut >= 0 {
 			data = data[:j.Cut:j.Cut]
 		}
-		recv := freshLike(o.obj)
-		n, out := x.decodeFault(d, recv, data)
+		recv := e.zero()
+		n, out := decodeFault(d, recv, data, b.Tripwire)
 		fillOutcome(&r, out)
 		r.N = n
+		if r.Alloc > allocLimit(len(b.Ref)) {
+			r.AllocSite = bigAllocSite()
+		}
 		if j.Check && r.ok() {
-			r.Invalid, r.InvalidMsg = x.validity(d, recv)
+			r.Invalid, r.InvalidMsg = validity(e, d, recv, b.Tripwire)
 		}
 	default:
 		panic("c08: unknown job op " + j.Op)
@@ -144,7 +176,7 @@ func execJob(j job) (r result) {
 
 // validity of an object obtained from corrupted input that was accepted without error: it must marshal, and
 // its encoding must decode and marshal to the same bytes again.
-func (x *lc) validity(d decoder, recv any) (kind, msg string) {
+func validity(e *entry, d decoder, recv any, tripwire bool) (kind, msg string) {
 	b1, o1, ok := encodeFor(d, apiOf(recv))
 	if !ok {
 		if o1.panicked != nil {
@@ -152,8 +184,8 @@ func (x *lc) validity(d decoder, recv any) (kind, msg string) {
 		}
 		return "remarshal-fails", fmt.Sprintf("the resulting object cannot be marshalled: %v", o1.err)
 	}
-	recv2 := freshLike(x.o.obj)
-	_, o2 := x.decodeFault(d, recv2, b1)
+	recv2 := e.zero()
+	_, o2 := decodeFault(d, recv2, b1, tripwire)
 	if o2.err != nil || o2.panicked != nil {
 		return "unstable", fmt.Sprintf("the re-marshalled object does not decode (err=%v panic=%v)", o2.err, o2.panicked)
 	}
@@ -163,15 +195,54 @@ func (x *lc) validity(d decoder, recv any) (kind, msg string) {
 	return "", ""
 }
 
+// bigAllocSite names the library function that allocated the most since the previous call, from the heap
+// profile (MemProfileRate is 1 MiB in the helper, so every allocation of tens of MiB has a record; records become
+// visible after garbage collections).
+var allocSeen = map[[32]uintptr]int64{}
+
+func bigAllocSite() string {
+	runtime.GC()
+	runtime.GC()
+	n, _ := runtime.MemProfile(nil, true)
+	recs := make([]runtime.MemProfileRecord, n+64)
+	n, ok := runtime.MemProfile(recs, true)
+	if !ok {
+		return ""
+	}
+	best, bestDelta := -1, int64(0)
+	for i := 0; i < n; i++ {
+		d := recs[i].AllocBytes - allocSeen[recs[i].Stack0]
+		allocSeen[recs[i].Stack0] = recs[i].AllocBytes
+		if d > bestDelta {
+			best, bestDelta = i, d
+		}
+	}
+	if best < 0 || bestDelta < 32<<20 {
+		return ""
+	}
+	frames := runtime.CallersFrames(recs[best].Stack())
+	for {
+		f, more := frames.Next()
+		if strings.Contains(f.Function, "tuneinsight/lattigo") {
+			return normFunc(f.Function)
+		}
+		if !more {
+			return ""
+		}
+	}
+}
+
 // ---------------------------------------------------------------------------------------------
 // helper process side
 
 func childMain() {
-	debug.SetMaxStack(32 << 20) // a runaway recursion ends in milliseconds
+	runtime.MemProfileRate = 1 << 20 // every allocation of tens of MiB is recorded with its call stack (bigAllocSite)
+	debug.SetMaxStack(8 << 20)       // a runaway recursion ends in milliseconds
 	// A mis-framed stream makes decoders allocate whatever a garbage length says. Below the limit that is a
 	// slow page-faulting multi-GiB allocation, above it an immediate "fatal error: out of memory": keep the
-	// limit low so that the outcome is quick either way (the helper itself needs a few dozen MiB).
-	lim := uint64(1536) << 20
+	// limit low so that the outcome is quick either way. (A go1.23 process reserves ~1.3 GiB of address space
+	// before it has allocated anything; RLIMIT_AS counts that.)
+	lim := uint64(2304) << 20
 	if v := os.Getenv("C08_CHILD_MEM_MB"); v != "" {
 		var mb uint64
 		fmt.Sscan(v, &mb)
@@ -183,13 +254,13 @@ func childMain() {
 	dec := json.NewDecoder(in)
 	enc := json.NewEncoder(out)
 	for {
-		var batch []job
-		if err := dec.Decode(&batch); err != nil {
+		var b batch
+		if err := dec.Decode(&b); err != nil {
 			return
 		}
-		for i, j := range batch {
+		for i, j := range b.Jobs {
 			fmt.Fprintf(os.Stderr, "@job %d\n", i)
-			r := execJob(j)
+			r := execJob(&b, j)
 			if err := enc.Encode(&r); err != nil {
 				return
 			}
@@ -264,14 +335,19 @@ func (h *helper) kill() {
 	_ = h.cmd.Wait()
 }
 
-func classifyFatal(stderr string) (kind, site string) {
+// classifyFatal turns the helper's dying words into a result. An out-of-memory death carries the size of the
+// refused request ("runtime: out of memory: cannot allocate N-byte block").
+func classifyFatal(stderr string) (r result) {
 	switch {
 	case strings.Contains(stderr, "stack overflow") || strings.Contains(stderr, "stack exceeds"):
-		kind = "stack-overflow"
+		r.Fatal = "stack-overflow"
 	case strings.Contains(stderr, "out of memory") || strings.Contains(stderr, "cannot allocate"):
-		kind = "out-of-memory"
+		r.Fatal = "out-of-memory"
+		if i := strings.Index(stderr, "cannot allocate "); i >= 0 {
+			fmt.Sscanf(stderr[i:], "cannot allocate %d-byte", &r.Alloc)
+		}
 	default:
-		kind = "other"
+		r.Fatal = "other"
 	}
 	for _, l := range strings.Split(stderr, "\n") {
 		if strings.HasPrefix(l, "github.com/tuneinsight/lattigo/") {
@@ -280,39 +356,64 @@ func classifyFatal(stderr string) (kind, site string) {
 			} else if i := strings.LastIndex(l, "("); i >= 0 {
 				l = l[:i]
 			}
-			site = normFunc(strings.TrimSpace(l))
+			r.FatalSite = normFunc(strings.TrimSpace(l))
 			break
 		}
 	}
-	if site == "" {
-		site = "unknown"
+	if r.FatalSite == "" {
+		r.FatalSite = "unknown"
 	}
 	return
 }
 
 // runJobs executes the jobs in order in the helper process and returns one result per job.
-func runJobs(jobs []job) []result {
+func runJobs(hdr batch, jobs []job) []result {
 	res := make([]result, 0, len(jobs))
+	// Cut-off (bounds what one leaf spends on dying helpers and giant allocations): after maxEvents results that
+	// are fatal or an over-the-limit allocation, the rest of the batch is not executed. Both kinds of event are
+	// deterministic properties of a job (an allocation request above the limit is an event whether the runtime
+	// happened to satisfy it or not), so the cut-off position is too. Jobs travel in chunks of 64 so that the
+	// helper does not run far past the cut-off.
+	events := 0
+	limit := allocLimit(len(hdr.Ref))
+	note := func(r result) {
+		if r.Fatal != "" || r.Alloc > limit {
+			events++
+		}
+	}
 	if os.Getenv("C08_INPROC") == "1" {
 		for _, j := range jobs {
-			res = append(res, execJob(j))
+			if events >= maxEvents {
+				res = append(res, result{NotRun: true})
+				continue
+			}
+			r := execJob(&hdr, j)
+			note(r)
+			res = append(res, r)
 		}
 		return res
 	}
 	for len(res) < len(jobs) {
+		if events >= maxEvents {
+			res = append(res, result{NotRun: true})
+			continue
+		}
 		if theHelper == nil {
 			theHelper = startHelper()
 		}
 		h := theHelper
 		h.stderr.take()
 		pending := jobs[len(res):]
-		b, err := json.Marshal(pending)
+		if len(pending) > 64 {
+			pending = pending[:64]
+		}
+		hdr.Jobs = pending
+		b, err := json.Marshal(&hdr)
 		if err != nil {
 			panic(err)
 		}
 		go func() { _, _ = h.stdin.Write(append(b, '\n')) }()
-		got := 0
-		for got < len(pending) {
+		for got := 0; got < len(pending); got++ {
 			type lineRes struct {
 				b   []byte
 				err error
@@ -328,8 +429,11 @@ func runJobs(jobs []job) []result {
 			}
 			var r result
 			if !hang && lr.err == nil && json.Unmarshal(lr.b, &r) == nil {
+				if events >= maxEvents {
+					r = result{NotRun: true} // executed by the helper, but beyond the cut-off: not looked at
+				}
+				note(r)
 				res = append(res, r)
-				got++
 				continue
 			}
 			// the helper died (or hangs) while executing pending[got]
@@ -338,9 +442,12 @@ func runJobs(jobs []job) []result {
 			if hang {
 				r = result{Fatal: "hang", FatalSite: "unknown"}
 			} else {
-				k, s := classifyFatal(h.stderr.take())
-				r = result{Fatal: k, FatalSite: s}
+				r = classifyFatal(h.stderr.take())
 			}
+			if events >= maxEvents {
+				r = result{NotRun: true}
+			}
+			note(r)
 			res = append(res, r)
 			break
 		}
@@ -348,4 +455,14 @@ func runJobs(jobs []job) []result {
 	return res
 }
 
-func runJob(j job) result { return runJobs([]job{j})[0] }
+func runJob(hdr batch, j job) result { return runJobs(hdr, []job{j})[0] }
+
+// header of the batches about this leaf's object and decoder.
+func (x *lc) header(d *decoder) batch {
+	h := batch{Seed: x.seed, Entry: x.e.name, Vi: x.vi}
+	if d != nil {
+		h.Ref, _ = x.o.ref(*d)
+		h.Tripwire = x.o.binOK && x.o.wbinOK && (bytes.HasPrefix(x.o.bin, x.o.wbin) || bytes.HasPrefix(x.o.wbin, x.o.bin))
+	}
+	return h
+}
